@@ -1,4 +1,5 @@
 import BHS.Props.C18
+import BHS.Props.Admission
 open BHS.Props.C18
 #print axioms C18_limits
 #print axioms C18_limits_server
@@ -14,3 +15,15 @@ open BHS.Props.C18
 #print axioms C18_target_server
 #print axioms C18_target_replacement
 #print axioms C18_target_after_ban
+#print axioms BHS.Props.Admission.handleAddPeerMsg_refines
+#print axioms BHS.Props.Admission.handleAddPeerMsg_badaddr
+#print axioms BHS.Props.Admission.handleDonePeerMsg_refines
+#print axioms BHS.Props.Admission.handleDonePeerMsg_absent
+#print axioms BHS.Props.Admission.handleBanPeerMsg_refines
+#print axioms BHS.Props.Admission.genStep_eq_step
+#print axioms BHS.Props.Admission.genRun_eq_run
+#print axioms BHS.Props.Admission.C18_limits_generated
+#print axioms BHS.Props.Admission.C18_limits_any_history_generated
+#print axioms BHS.Props.Admission.C18_counters_return_to_zero_generated
+#print axioms BHS.Props.Admission.C18_admission_exact_generated
+#print axioms BHS.Props.Admission.C18_ban_generated
